@@ -56,7 +56,7 @@ def run(ctx):
     quick = ctx.tier == "quick"
     tscen.ASYNC_FIX = tscen.async_fix_in_code()
     scs = extra_scenarios()
-    step = 12 if quick else 2
+    step = 16 if quick else 2
     for mod in (p_c07, p_c08, p_c09, p_c06, p_c04, p_c15):
         s = mod.scenarios(True)
         scs += s[ctx.seed % step::step]
